@@ -24,6 +24,8 @@ Definition rbind {A B} (r : res A) (f : A -> res B) : res B :=
    4  _update_belief: potential's scope is not inside the in-clique ("Factors defined on clusters ...")
    5  normalising constant is zero (pgmpy returns nan)
    6  backward pass divides a non-zero message entry by a zero forward-potential entry (pgmpy: inf/nan)
+   8  a query variable is also an evidence variable (ValueError from BeliefPropagation.query)
+   9  empty list of query variables (ValueError from max())
    7  add_edge rejects the edge (self loop, backward edge, edge over several slices) *)
 
 (* ------------------------------------------------------------------ nodes, graph bookkeeping *)
@@ -55,6 +57,15 @@ Definition dbn_add_edge (g : dgraph) (e : edge) : res dgraph :=
   else Err 7.
 Definition dbn_add_edges (g : dgraph) (es : list edge) : res dgraph :=
   fold_left (fun r e => rbind r (fun g' => dbn_add_edge g' e)) es (Ok g).
+(* add_edges_from stops at the first rejected edge; the edges before it stay in the graph *)
+Fixpoint dbn_add_edges_partial (g : dgraph) (es : list edge) : dgraph * bool :=
+  match es with
+  | [] => (g, true)
+  | e :: r => match dbn_add_edge g e with
+              | Ok g' => dbn_add_edges_partial g' r
+              | Err _ => (g, false)
+              end
+  end.
 (* add_node(name) adds (name, 0) *)
 Definition dbn_add_names (g : dgraph) (ns : list nat) : dgraph :=
   fold_left (fun g' n => g_add_node g' (n, 0)) ns g.
@@ -321,12 +332,28 @@ Definition dbn_infer (N : nat) (cards : list nat) (es : list edge) (cs : list cp
   let names := seq 0 N in
   rbind (build_graph names es) (fun g =>
     if init_ok g names then
+      (* max(variable_dict) of an empty query list raises ValueError; a query variable that is also observed is
+         rejected by BeliefPropagation.query (ValueError) in the slice where it is asked *)
+      if Nat.eqb (length qs) 0 then Err 9 else
+      if existsb (fun q => existsb (fun e => node_eqb q (fst e)) ev) qs then Err 8 else
       let F0 := map (factor_of N) (slice_cpds names cs 0) in
       let F1 := map (factor_of N) (slice_cpds names cs 1) in
       let I0 := map (enc N) (get_interface_nodes g 0) in
       let I1 := map (enc N) (get_interface_nodes g 1) in
       if smooth then backward_inference N cards F0 F1 I0 I1 qs ev
       else forward_inference N cards F0 F1 I0 I1 qs ev
+    else Err 3).
+
+(* forward_inference(variables, evidence, "potential"): the interface potentials [pot_0; ...; pot_T] *)
+Definition dbn_potentials (N : nat) (cards : list nat) (es : list edge) (cs : list cpd)
+                          (qs : queries) (ev : evidence) : res (list (factor Qc_sum_csr)) :=
+  let names := seq 0 N in
+  rbind (build_graph names es) (fun g =>
+    if init_ok g names then
+      if Nat.eqb (length qs) 0 then Err 9 else
+      if existsb (fun q => existsb (fun e => node_eqb q (fst e)) ev) qs then Err 8 else
+      forward_potentials N cards (map (factor_of N) (slice_cpds names cs 0)) (map (factor_of N) (slice_cpds names cs 1))
+                         (map (enc N) (get_interface_nodes g 0)) (map (enc N) (get_interface_nodes g 1)) qs ev
     else Err 3).
 
 (* ------------------------------------------------------------------ sessions (one engine, several questions)
